@@ -91,6 +91,38 @@ def run(ctx):
                         "(Termination is covered by C09)"]
 
 
+def family_stage(ctx, family, cases):
+    """One family of the differential as a stage of another property's check (violations are reported under ctx)."""
+    bindir, _ = common.build_harness("std", bins=["mirrors"])
+    try:
+        r = subprocess.run([os.path.join(bindir, "mirrors"), "--cases", str(cases), "--seed", str(ctx.seed),
+                            "--family", family], env=common.base_env(), stdout=subprocess.PIPE,
+                           stderr=subprocess.DEVNULL, text=True, timeout=1800)
+    except subprocess.TimeoutExpired:
+        raise common.Inconclusive("mirrors stage exceeded the 1800 s watchdog")
+    summary = None
+    for line in r.stdout.splitlines():
+        if line.startswith("VIOLATION_CASE "):
+            v = json.loads(line.split(" ", 1)[1])
+            ctx.violation(f"mirrors:{v['family']}:{v['what'].split(':')[0]}", {
+                "what": v["what"], "at": f"family {v['family']} case {v['index']}",
+                "case": f"{v['family']} seed={v['seed']} index={v['index']}",
+                "expected": "plain struct and Unimock agree on results and on the required-method call sequence",
+                "observed": v["what"][:1200]})
+        elif line.startswith("SUMMARY "):
+            summary = json.loads(line.split(" ", 1)[1])
+    if summary is None:
+        raise common.Inconclusive(f"mirrors stage produced no summary (exit {r.returncode})")
+    ctx.require(summary["evaluations"] > 0 and summary["required_calls_logged"] > 0,
+                f"mirrors stage {family}: nothing was driven")
+    ctx.coverage[f"mirrors_stage_{family}"] = {"evaluations": summary["evaluations"],
+                                               "distinct_call_sequences": summary["distinct_nontrivial"],
+                                               "required_method_calls_observed": summary["required_calls_logged"],
+                                               "samples": summary["samples"][:1]}
+    ctx.coverage["evaluations"] += summary["evaluations"]
+    ctx.coverage["distinct_nontrivial"] += summary["distinct_nontrivial"]
+
+
 def replay(prop, path):
     with open(path) as f:
         print(f.read())
